@@ -108,6 +108,14 @@ func (a *AWS) NewInstance(asg string) *Instance {
 // ProviderID is the node.spec.providerID a cloud controller would set for the instance.
 func (i *Instance) ProviderID() string { return fmt.Sprintf("aws:///%s/%s", i.AZ, i.ID) }
 
+// ProviderIDOf is the provider id of a known instance ("" if unknown).
+func (a *AWS) ProviderIDOf(id string) string {
+	if i := a.Instances[id]; i != nil {
+		return i.ProviderID()
+	}
+	return ""
+}
+
 // Detach removes an instance from its group without terminating it (environment action).
 func (a *AWS) Detach(id string, decrement bool) {
 	inst := a.Instances[id]
